@@ -58,6 +58,9 @@ def normalise(toks, user_names):
     out = []
     for k, t in toks:
         if k == "id":
+            if t.upper() == "GOTO" and t not in user_names:
+                out += ["GO", "TO"]          # split compound keyword (documented canonicalisation)
+                continue
             out.append(t if t in user_names else t.upper())
         elif k == "dot":
             out.append(t.upper())
